@@ -13,6 +13,7 @@ def build():
     c_stats.install(R)
     c_runner.install(R)
     c_runner.install_core(R)
+    c_runner.install_cases(R)
     c_prepare.install(R)
     # calls dropped as no-ops (DESIGN 2.2) -- every dropped call site is listed in the evidence
     R.inert |= {"print", "warnings.warn", "progbar", "time.sleep", "logger.setLevel", "logging.getLogger",
